@@ -555,8 +555,12 @@ func TestVerifC14(t *testing.T) {
 				add("agent", "seq", peers[rng.intn(4)], "old2m", k, 0)
 			}
 			if k == 2 || k == 5 || k == 8 || verifThorough() {
-				// older than the IdKeeper's retention: the known finding
-				add("sb", "seq", peers[rng.intn(4)], "old2d", k, 0)
+				// older than the IdKeeper's retention: the counter is dropped at once; the numbers of the bundles
+				// that are still stored are skipped (none, neigh, destfail), after a direct delivery the number is
+				// handed out again (dest: the known finding)
+				for _, p := range peers {
+					add("sb", "seq", p, "old2d", k, 0)
+				}
 			}
 			for _, mode := range []string{"seq", "conc"} {
 				add("sreport", mode, peers[rng.intn(4)], "now", k, 0)
